@@ -99,11 +99,34 @@ def run_one(ck, prog):
             subs = [bb for bb, t in cfg.calls(lambda t: (t.get("callee") or "").endswith("i64>::checked_sub"))]
             inner = [bb for bb in subs if any(mentions(x, ctx.prov, lambda z: z[0] == "var" or (z[0] == "const" and z[1] in (0, 1))) for x in ctx.args(bb)[1:])]
             vals = set()
+
+            def possible(e, depth=0):
+                """constant values an expression can take: merged locals are expanded, a field of a merged tuple is projected out of each
+                tuple it was built from (an expanded helper returning (nanos, borrow))"""
+                e = strip_casts(e)
+                if not isinstance(e, tuple) or depth > 6:
+                    return {None}
+                if e[0] == "var":
+                    out = set()
+                    for d in ctx.prov.expand(e):
+                        out |= possible(d, depth + 1)
+                    return out or {None}
+                if e[0] == "field" and isinstance(e[1], tuple):
+                    base = strip_casts(e[1])
+                    tuples = ctx.prov.expand(base) if base[0] == "var" else [base]
+                    out = set()
+                    for tpl in tuples:
+                        tpl = strip_casts(tpl)
+                        if isinstance(tpl, tuple) and tpl[0] == "agg" and str(e[2]).isdigit() and int(e[2]) < len(tpl[3]):
+                            out |= possible(tpl[3][int(e[2])], depth + 1)
+                        else:
+                            out.add(None)
+                    return out or {None}
+                return {fold(e)}
             for bb in subs:
-                a1 = ctx.args(bb)[1]
-                if isinstance(strip_casts(a1), tuple) and strip_casts(a1)[0] == "var":
-                    for d in ctx.prov.expand(strip_casts(a1)):
-                        vals.add(fold(d))
+                a1 = strip_casts(ctx.args(bb)[1])
+                if isinstance(a1, tuple) and (a1[0] == "var" or (a1[0] == "field" and not mentions(a1, ctx.prov, lambda z: z[0] == "param"))):
+                    vals |= possible(a1)
             ck.ob("C19.2", f"{nm}|borrow-is-zero-or-one", vals == {0, 1}, fn=fn["path"], detail=f"the borrowed seconds must be 0 or exactly 1; found {sorted(str(v) for v in vals)}")
     ck.floor("C19.1", "checked operations on seconds", n_checked_ops, 6)
 
@@ -115,7 +138,19 @@ def run_one(ck, prog):
         ts = [bb for bb, t in ctx.cfg.calls(lambda t: (t.get("callee") or "").endswith("bool>::then_some"))]
         ok = len(ge0) == 1 and len(ts) == 1 and mentions(ctx.args(ts[0])[0], ctx.prov, lambda z: z[0] == "call" and z[3] == ge0[0]) and \
             any(fold(x) == 0 or mentions(x, ctx.prov, lambda z: z[0] == "const" and (z[1] == 0 or (len(z) > 4 and z[4] and not any(z[4][:8])))) for x in ctx.args(ge0[0]))
-        ck.ob("C19.3", "checked_sub_dur|negative-seconds-is-none", ok, fn=f2["path"], detail="a negative seconds result must become None (tv_sec.ge(&0).then_some(tv_sec)?)")
+        if not ok:
+            # the same guard written as a branch: the TimeSpec is built only on an edge where the seconds are known to be >= 0
+            news = [bb for bb, t in ctx.cfg.calls(lambda t: (t.get("callee") or "").endswith("TimeSpec::new"))]
+            good = bool(news)
+            for nb in news:
+                sec = strip_casts(ctx.args(nb)[0])
+                facts = panics.dominating_facts(ctx, nb)
+                ge = any(f[0] == "cmp" and ((f[1] == "Ge" and canon(strip_casts(f[2])) == canon(sec) and fold(f[3]) == 0) or
+                                             (f[1] == "Le" and canon(strip_casts(f[3])) == canon(sec) and fold(f[2]) == 0) or
+                                             (f[1] == "Gt" and canon(strip_casts(f[2])) == canon(sec) and fold(f[3]) == -1)) for f in facts)
+                good = good and ge
+            ok = good
+        ck.ob("C19.3", "checked_sub_dur|negative-seconds-is-none", ok, fn=f2["path"], detail="a negative seconds result must become None (tv_sec.ge(&0).then_some(tv_sec)?, or the result built only under tv_sec >= 0)")
     f3 = prog.fns.get(T + "sub_ts_checked_dur")
     if f3 is not None:
         ctx = prog.ctx(f3)
